@@ -2,6 +2,8 @@ package main
 
 import (
 	"encoding/json"
+	"fmt"
+	"os"
 	"sort"
 
 	"github.com/tidwall/geojson/verifsim"
@@ -86,6 +88,26 @@ func (g *gen) stratified() Recipe {
 	return g.stratifiedOf(kind)
 }
 
+// nearConstant returns a size just below, at or just above one of the integer
+// constants harvested from the library source that lies in [lo, hi]; ok=false
+// if there is none.
+func (g *gen) nearConstant(lo, hi int) (int, bool) {
+	var cands []int
+	for _, c := range harvested {
+		if c >= lo && c <= hi {
+			cands = append(cands, c)
+		}
+	}
+	if len(cands) == 0 {
+		return 0, false
+	}
+	v := cands[g.r.Intn(len(cands))] + g.r.Pick(-1, 0, 0, 1, 1)
+	if v < lo {
+		v = lo
+	}
+	return v, true
+}
+
 func (g *gen) stratifiedOf(kind string) Recipe {
 	r := g.r
 	rc := Recipe{Kind: kind, Via: r.PickS("parse", "ctor"), Opts: g.parseOpts()}
@@ -93,7 +115,16 @@ func (g *gen) stratifiedOf(kind string) Recipe {
 	rc.Opts.IndexGeometryKind = r.Pick(0, 1, 2)
 	rc.Opts.IndexGeometry = r.Pick(0, 1, 64)
 	rc.Opts.IndexChildren = r.Pick(0, 1, 64)
+	maxPts, maxKids, maxHoles := 1100, 4200, 300
+	if g.tp.maxTasks >= 6 {
+		maxPts, maxKids, maxHoles = 5200, 5200, 1100
+	}
 	sizeClass := func() int {
+		if r.Chance(0.25) {
+			if v, ok := g.nearConstant(8, maxPts); ok {
+				return v
+			}
+		}
 		switch r.Intn(8) {
 		case 0, 1, 2:
 			return r.Pick(4, 6, 12, 30)
@@ -106,6 +137,11 @@ func (g *gen) stratifiedOf(kind string) Recipe {
 		return r.Pick(200, 300, 1030)
 	}
 	childClass := func() int {
+		if r.Chance(0.25) {
+			if v, ok := g.nearConstant(2, maxKids); ok {
+				return v
+			}
+		}
 		switch r.Intn(10) {
 		case 0, 1, 2:
 			return r.Pick(1, 2, 5)
@@ -131,6 +167,14 @@ func (g *gen) stratifiedOf(kind string) Recipe {
 	case "Polygon":
 		rc.Shape = geomShape(false)
 		rc.Shape.Holes = r.Pick(0, 1, 2, 9, 64, 100)
+		if r.Chance(0.3) {
+			if v, ok := g.nearConstant(3, maxHoles); ok {
+				rc.Shape.Holes = v
+			}
+		}
+		if debugSolo && rc.Shape.Holes >= 200 {
+			fmt.Fprintf(os.Stderr, "gen: stratified polygon with %d holes via %s n=%d\n", rc.Shape.Holes, rc.Via, rc.Shape.N)
+		}
 		rc.Via = r.PickS("parse", "ctor", "move", "literal")
 		if rc.Via == "move" || rc.Via == "literal" {
 			rc.Shape.Meters = r.Coord(-3, 3)
@@ -147,6 +191,10 @@ func (g *gen) stratifiedOf(kind string) Recipe {
 	case "Circle":
 		rc = g.recipe("Circle", 0, false)
 		rc.Shape.Steps = r.Pick(3, 8, 12, 64)
+		if v, ok := g.nearConstant(3, 400); ok && r.Chance(0.3) {
+			rc.Shape.Steps = v
+			rc.Via = "ctor"
+		}
 		if rc.Shape.Meters == 0 {
 			rc.Shape.Meters = 50000
 		}
@@ -676,7 +724,9 @@ func genSpec(seed uint64, worker, run int, tier string) (*Spec, *Rng, faultSet) 
 	if r.Chance(0.5) {
 		hot = append(hot, r.Intn(n))
 	}
+	stratifiedHot := false
 	if r.Chance(0.3) {
+		stratifiedHot = true
 		// STRATIFIED hot object: the natural distribution makes conjunctions of
 		// rare structural features (many holes AND built from parts AND large)
 		// vanishingly rare; here every class of every dimension is equally likely.
@@ -720,7 +770,13 @@ func genSpec(seed uint64, worker, run int, tier string) (*Spec, *Rng, faultSet) 
 		}
 		s.Tasks = append(s.Tasks, ops)
 	}
-	switch k := r.Intn(100); {
+	kshape := r.Intn(100)
+	if stratifiedHot && r.Chance(0.5) {
+		// a rare structure deserves a workload that really exercises it: every
+		// method (sweep) or many arguments inside its bounding box (argstorm)
+		kshape = r.Pick(0, 0, 16, 16, 16, 9, 13)
+	}
+	switch k := kshape; {
 	case k < 8:
 		g.sweep(s, hot, fs)
 	case k < 12:
@@ -728,7 +784,7 @@ func genSpec(seed uint64, worker, run int, tier string) (*Spec, *Rng, faultSet) 
 	case k < 15:
 		g.marathon(s, hot, fs, tier)
 	case k < 21:
-		g.argstorm(s, fs)
+		g.argstormOn(s, fs, hot[0], stratifiedHot)
 	case k < 25:
 		g.duel(s)
 	}
@@ -741,6 +797,9 @@ func genSpec(seed uint64, worker, run int, tier string) (*Spec, *Rng, faultSet) 
 func (g *gen) crowd(s *Spec, hot []int, fs faultSet) {
 	r := g.r
 	nt := r.Range(7, 12)
+	if v, ok := g.nearConstant(2, 15); ok && r.Chance(0.4) {
+		nt = v + 1 // one more caller than some small constant of the library
+	}
 	h := hot[0]
 	fam := [][]string{mObjArg, mSpatialV, mSpatialG, mSerial, mCallback, nil}[r.Intn(6)]
 	s.Tasks = nil
@@ -780,6 +839,9 @@ func (g *gen) marathon(s *Spec, hot []int, fs faultSet, tier string) {
 	if tier == "thorough" {
 		lo, hi = 800, 6000
 		units = 6_000_000
+	}
+	if v, ok := g.nearConstant(100, hi*2); ok && r.Chance(0.4) {
+		lo, hi = v/nt+1, v/nt+v/8+2 // the callers together just pass the constant
 	}
 	// a call on a big object costs in proportion to its size: fewer calls then
 	if w := recipeWeight(&s.Pool[h]); w > 0 && units/w < hi {
@@ -822,11 +884,14 @@ var mArgValue = []string{"IntersectsPoint", "WithinPoint", "IntersectsRect", "Wi
 // argstorm: several callers put many DIFFERENT arguments to one or two methods
 // of the same object, all drawn inside that object's bounding box (state that
 // is populated lazily per argument: memo tables, grids, per-cell caches).
-func (g *gen) argstorm(s *Spec, fs faultSet) {
+func (g *gen) argstormOn(s *Spec, fs faultSet, target int, useTarget bool) {
 	r := g.r
 	// prefer a large geometry as the target
 	h := r.Intn(len(s.Pool))
-	for k := 0; k < 6; k++ {
+	if useTarget {
+		h = target
+	}
+	for k := 0; k < 6 && !useTarget; k++ {
 		c := r.Intn(len(s.Pool))
 		if s.Pool[c].Shape.N >= 64 && (s.Pool[c].Kind == "Polygon" || s.Pool[c].Kind == "LineString" || s.Pool[c].Kind == "Feature" || s.Pool[c].Kind == "MultiPolygon") {
 			h = c
